@@ -189,9 +189,13 @@ def binopChars (op : BinOp) : List Char := op.symbol.toList
 def unopChars : UnOp → List Char | .neg => ['-'] | .not => ['~']
 def condChars (c : Cond) : List Char := c.symbol.toList
 
+/-- binary64 bit pattern of an infinity or a NaN (`not math.isfinite(value)`) -/
+def nonFinite (b : Nat) : Bool := (b / 2 ^ 52) % 2048 == 2047
+
+/-- `Const.__str__`: inf / nan are no numeric literals, they are quoted: `float 'inf'` -/
 def constChars (fmt : Nat → List Char) : ConstVal → List Char
   | .int v => intChars v
-  | .fbits b => fmt b
+  | .fbits b => if nonFinite b then "float '".toList ++ fmt b ++ ['\''] else fmt b
 
 def opChars (o : Operand) : List Char := (opName o).toList
 
@@ -292,9 +296,9 @@ def tyToks : Ty → List Tok
 
 def opTok (o : Operand) : Tok := .id (opName o)
 
-def constTok (fmt : Nat → List Char) : ConstVal → Tok
-  | .int v => .int v
-  | .fbits b => .flt (String.ofList (fmt b))
+def constToks (fmt : Nat → List Char) : ConstVal → List Tok
+  | .int v => [.int v]
+  | .fbits b => if nonFinite b then [.id "float", .str (String.ofList (fmt b))] else [.flt (String.ofList (fmt b))]
 
 def binopTok (op : BinOp) : Tok :=
   match op with
@@ -305,7 +309,7 @@ def binopTok (op : BinOp) : Tok :=
 def unopTok : UnOp → Tok | .neg => .sym "-" | .not => .sym "~"
 
 def instrToks (fmt : Nat → List Char) : Instr → List Tok
-  | .const d ty c => tyToks ty ++ [.id d, .sym "=", constTok fmt c]
+  | .const d ty c => tyToks ty ++ [.id d, .sym "="] ++ constToks fmt c
   | .undefined d ty => tyToks ty ++ [.id d, .sym "=", .id "undefined"]
   | .literal d data =>
     tyToks (.blob data.length 1) ++ [.id d, .sym "=", .id "literal", .str (String.ofList (hexlify data))]
@@ -561,6 +565,14 @@ def parseAssignment (fparse : String → Option Nat) (fuel : Nat) (ts : Toks) : 
         let (x, r) ← parseId r
         pure (.load name ty (.glob x) true, r)
       else if a = "undefined" then pure (.undefined name ty, r)
+      else if a = "float" then do
+        let (t, r) ← consume "STRING" r
+        match t with
+        | .str s =>
+          match fparse s with
+          | some b => pure (.const name ty (.fbits b), r)
+          | none => .error .Unsupported
+        | _ => .error .IrParseException
       else if atKeyword "rol" r || atKeyword "ror" r then do
         let (o, r) ← parseId r
         let (b, r) ← parseId r
